@@ -173,7 +173,8 @@ spec(lean="link_roots_to_nearest", module="AlgoCtor", file=_NORM, func="link_roo
 # dtype tag (np.int32 = 0, np.float32 = 1, np.int64 = 2, np.float64 = 3); `**kwargs` / `ndata` are `Dict String Arr`.
 #
 # HOOKS (numpy idioms on array objects; active for this file's modules only; every allocating call appends ONE buffer to the heap):
-#   np.arange(a, b, step=1, dtype=D) · np.zeros(n, dtype=D) · np.full(n, x, dtype=D) · np.concatenate([a, b]) · a.astype(D)   (allocate)
+#   np.arange(a, b, step=1, dtype=D) · np.zeros(n, dtype=D) · np.full(n, x, dtype=D) · np.concatenate([a, b]) · a.astype(D) · a.copy() ·
+#   np.array(a)   (allocate; the last two are the identity in the translator's value-level rules, which must not apply to array OBJECTS)
 #   a[:n] (a VIEW: same buffer) · a.dtype · a.shape[0] · a.ndim (= 1: all modelled arrays are 1-d) · np.int32 / np.float32 (the tags)
 #   an attribute / method of a variable of type `Option Arr`: `None` has none -> an error of the typed model
 #   `x or y` with x : Option T  (None is falsy; a dtype is never falsy) · `a != b` / `a == b` between T and Option T
@@ -249,6 +250,14 @@ def _np_arrays(tr, e, want):
             if t in (_ARR, _OARR):
                 n = tr.bindname()      # a non-array sequence turned into an array: not modelled
                 return s + [f"Py.bind (none : Option Py.Arr) fun {n} =>"], n, _ARR
+        # `a.copy()` / `np.array(a)` of an array OBJECT allocate (the built-in value-level rules read them as the identity: not here)
+        if ((isinstance(e.func, ast.Attribute) and e.func.attr == "copy" and not e.args and not kw)
+                or (f == "np.array" and len(e.args) == 1 and not kw)):
+            src = e.func.value if f != "np.array" else e.args[0]
+            s, c, t = tr.tr(src)
+            if t in (_ARR, _OARR):
+                s1, a = _as(tr, src, _ARR)
+                return _alloc(tr, s1, f"Py.Bufs.astype v.{_bufs_var(tr)} {a} {a}.dtype", True)
         if isinstance(e.func, ast.Attribute) and e.func.attr == "astype" and len(e.args) == 1 and not kw:
             s, c, t = tr.tr(e.func.value)
             if t in (_ARR, _OARR):
